@@ -366,6 +366,9 @@ func (g *gen) session(k int, ops int) {
 			w.addSeq(i, g.req(cur, tr.proveTree(next, cur), g.ckpt(o, tr, next, sg)), fOK, fOK, fOK, false)
 		case c < 68:
 			w.restart(i)
+			if g.r.Intn(2) == 0 { // the first request after a restart has to fetch: make that fail
+				w.addSeq(i, adv(cur, next, tr), fFail, fOK, fOK, false)
+			}
 		case c < 80:
 			// instance i parks at its Replace; the other instance completes a request; then i goes on
 			j := 3 - i
